@@ -562,7 +562,11 @@ func runC13(c *Ctx) {
 		if !strings.Contains(em.tailGuard, wantNe) && !strings.Contains(em.tailGuard, wantNe2) {
 			return "the tail is not emitted exactly when (len/size)*size != len: " + em.tailGuard
 		}
-		// empty guard
+		// empty guard: either the explicit row, or none at all - with the loop bound (len/size)*size and the tail guard
+		// (len/size)*size != len established above, an empty input runs the loop zero times and has no tail anyway
+		if len(em.guardNone) == 0 {
+			return ""
+		}
 		if len(em.guardNone) != 1 || !(strings.Contains(em.guardNone[0], "builtin:len(p0) = 0") || em.guardNone[0] == "1· + -1·builtin:len(p0) > 0") {
 			return "no 'empty input emits nothing' row: " + strings.Join(em.guardNone, "|")
 		}
